@@ -4,6 +4,7 @@ package main
 
 import (
 	"fmt"
+	"math"
 	"go/ast"
 	"go/token"
 	"go/types"
@@ -15,7 +16,7 @@ const maxInlineDepth = 10
 
 func isSpecHelper(f *types.Func) bool {
 	switch f.Name() {
-	case "old", "forallInt", "existsInt", "forallReal", "existsReal", "implies", "assert", "assume", "iff", "fresh", "memEq", "lemmaUse":
+	case "old", "forallInt", "existsInt", "forallReal", "existsReal", "implies", "assert", "assume", "iff", "fresh", "memEq", "lemmaUse", "wfd", "bnd":
 		return f.Pkg() != nil && strings.Contains(f.Pkg().Path(), "tdewolff/canvas")
 	}
 	return false
@@ -439,6 +440,12 @@ func (x *Exec) callMath(s *State, name string, args []*Term) ([]*Term, bool) {
 			Implies(Cmp(">=", r(0), zero), Cmp(">=", res, zero)),
 			Implies(Cmp("<=", r(0), zero), Cmp("<=", res, zero)))))
 		return []*Term{res}, true
+	case "Float64bits":
+		if args[0].rat != nil {
+			f, _ := args[0].rat.Float64()
+			return []*Term{IntLitBig(new(big.Int).SetUint64(math.Float64bits(f)))}, true
+		}
+		return []*Term{x.uf("go_float64bits", SInt, r(0))}, true
 	case "Copysign":
 		a := Ite(Cmp(">=", r(0), zero), r(0), Neg(r(0)))
 		return []*Term{Ite(Cmp(">=", r(1), zero), a, Neg(a))}, true
@@ -917,7 +924,9 @@ func (x *Exec) callModular(s *State, fi *FuncInfo, ct *Contract, recv *Term, arg
 	f0.counts["call:"+fi.Key]++
 	site := f0.counts["call:"+fi.Key]
 	for _, rq := range ct.Requires {
+		x.goalMode = true
 		g := x.evalClauseIn(s, env, fi, rq, nil, s)
+		x.goalMode = false
 		x.obligeNamed(s, fmt.Sprintf("%s/call:%s#%d.requires#%d", x.top.Key, fi.Key, site, rq.Ord), "requires", g, x.pos(call.Pos()), rq.Text)
 		s.assume(g)
 	}
@@ -1064,7 +1073,9 @@ func (x *Exec) callSpecHelper(s *State, fn *types.Func, call *ast.CallExpr) []*T
 		s.assumes = tmp.assumes
 		return []*Term{v}
 	case "implies":
+		x.goalMode = !x.goalMode
 		a := x.evalCond(s, call.Args[0])
+		x.goalMode = !x.goalMode
 		c := s.clone()
 		c.assume(a)
 		base := len(c.assumes)
@@ -1107,9 +1118,12 @@ func (x *Exec) callSpecHelper(s *State, fn *types.Func, call *ast.CallExpr) []*T
 			delete(s.env, obj)
 		}
 		if fn.Name() == "forallInt" {
-			return []*Term{Forall([]*Term{bv}, Implies(And(rng, side), b))}
+			if x.goalMode {
+				return []*Term{Forall([]*Term{bv}, Implies(And(rng, side), b))}
+			}
+			return []*Term{Forall([]*Term{bv}, Implies(rng, b))}
 		}
-		return []*Term{Exists([]*Term{bv}, And(rng, side, b))}
+		return []*Term{Exists([]*Term{bv}, And(rng, b))}
 	case "forallReal", "existsReal":
 		fl := call.Args[0].(*ast.FuncLit)
 		nm := fl.Type.Params.List[0].Names[0]
@@ -1133,6 +1147,10 @@ func (x *Exec) callSpecHelper(s *State, fn *types.Func, call *ast.CallExpr) []*T
 			return []*Term{Forall([]*Term{bv}, Implies(side, b))}
 		}
 		return []*Term{Exists([]*Term{bv}, And(side, b))}
+	case "wfd":
+		return []*Term{x.specWfd(s, call)}
+	case "bnd":
+		return []*Term{x.specBnd(s, call)}
 	case "assert":
 		g := x.evalCond(s, call.Args[0])
 		x.oblige(s, "assert", g, call.Pos(), exprString(call.Args[0]))
